@@ -123,6 +123,38 @@ def verifierExit (n k : Nat) (unwinding : Bool) (ex : String) : Option String :=
   | Res.ok _ => if ex == "ok" then none else some "translated-verifier-silent"
   | Res.panic _ => if ex.startsWith "mismatch" then none else some "translated-verifier-panics"
 
+/-- is the range `[a, a+n)` covered by an `sys_icache_invalidate` request logged at position ≥ `from_`? -/
+def macInvalidated (log : List (String × List Val)) (from_ a n : Nat) : Bool :=
+  (log.drop from_).any fun e => match e with
+    | ("sys_icache_invalidate", [Val.n lo, Val.n len]) => lo.toNat ≤ a && a + n ≤ lo.toNat + len.toNat
+    | _ => false
+
+/-- position of the first raw copy in a log -/
+def copyPos (log : List (String × List Val)) : Option Nat := log.findIdx? (·.1 == "copy_nonoverlapping")
+
+/-- C17 on the macOS memory path as translated (`GenMac`): the trampoline written by `inject_asm_code`
+    at `dest` must be covered by an instruction-cache invalidation requested after the copy -/
+def macTrampFlushed (bytes : List Nat) (dest : Nat) : Bool :=
+  let r := run (GenMac.inject_asm_code Mode.debug bytes dest) (os0 [])
+  match r.1, copyPos r.2.log with
+  | Res.ok _, some i => macInvalidated r.2.log (i + 1) dest bytes.length
+  | _, _ => false
+
+/-- the entry rewritten by the macOS `patch_function` (through the alias `remap` the kernel hands out)
+    must be covered, at `func`, by an invalidation requested after the copy -/
+def macEntryFlushed (func : Nat) (patch : List Nat) (remap : Nat) : Bool :=
+  let r := run (GenMac.patch_function Mode.debug func patch) (os0 [Val.n remap, Val.n func])
+  match r.1, copyPos r.2.log with
+  | Res.ok _, some i => macInvalidated r.2.log (i + 1) func patch.length
+  | _, _ => false
+
+/-- the restore of `PatchGuard::drop` on macOS: the original bytes written back at `func` are invalidated -/
+def macRestoreFlushed (func : Nat) (saved : List Nat) (jit remap : Nat) : Bool :=
+  let r := run (GenMac.drop Mode.debug func saved saved.length jit 20) (os0 [Val.n remap, Val.n func])
+  match r.1, copyPos r.2.log with
+  | Res.ok _, some i => macInvalidated r.2.log (i + 1) func saved.length
+  | _, _ => false
+
 /-- fold the translated function's verdict into a line verdict: a difference is a disagreement
     (between the source as translated and the implementation's observation) -/
 def withGen (v : Verdict) (g : Option String) : Verdict :=
